@@ -90,6 +90,7 @@ type Worker struct {
 	fixedPos    int
 	clockReadings []value
 	boundCache    map[string]bool
+	concCache     map[int32]uint64
 	model         map[string]uint64 // a model of the current path condition, when known
 	lastTimerDur  value
 
@@ -231,6 +232,7 @@ func (w *Worker) runPath(prefix []Decision) {
 	w.fixedPos = 0
 	w.clockReadings = nil
 	w.boundCache = map[string]bool{}
+	w.concCache = map[int32]uint64{}
 	w.model = nil
 	w.lastTimerDur = nil
 	w.tt = NewTermTable()
